@@ -538,8 +538,11 @@ class Run:
         if level == "exploration":
             orc = self.oracle or {}
             ev["coverage"].update({
-                "evaluations": int(orc.get("cases") or 0), "distinct_nontrivial": int(orc.get("distinct") or orc.get("cases") or 0),
-                "rule": "bounded native stand-in (contracts out of reach for this code shape): " + str(orc.get("bound") or ""),
+                "evaluations": int(orc.get("cases") or 0),
+                "distinct_nontrivial": int(orc.get("distinct") or (1 if orc.get("cases") else 0)),
+                "rule": "bounded native stand-in (contracts out of reach for this code shape); the oracles count executed cases, they do not measure how many "
+                        "are distinct, so distinct_nontrivial is the conservative 1 unless the oracle reports `distinct`; cases are generated as follows: "
+                        + str(orc.get("bound") or ""),
                 "explanation": "the deductive check could not bind its contracts to (part of) the current code, see out_of_reach; the statement-level "
                                "native oracle of this property ran instead - a bounded exploration, NOT a proof; obligations/discharged count only "
                                "the sections that still bound",
